@@ -1751,6 +1751,8 @@ def _map_blocks_local_np(p, a):
 def _map_blocks_local_da(p, a):
     if [[int(c) for c in dim] for dim in a.chunks] != p["chunks"]:
         raise Skip("input grid differs from the recorded one")
+    if a.dtype.kind not in "fi":
+        raise Skip("kernel would change the dtype declared for it")
     kw = {"dtype": a.dtype} if p["dtype"] else {}
     return da().map_blocks(K.k_block_submax, a, **kw)
 
@@ -1797,6 +1799,8 @@ def _g_map_blocks_chunks(g, ins):
 def _map_blocks_chunks_da(p, a):
     if [[int(c) for c in dim] for dim in a.chunks] != p["chunks"]:
         raise Skip("input grid differs from the recorded one")
+    if a.dtype.kind not in "fi":
+        raise Skip("kernel would change the dtype declared for it")
     # explicit chunks= : the block grid of the input is recorded in the node
     return da().map_blocks(K.KERNELS[p["fn"]], a, chunks=tuple(tuple(c) for c in p["chunks"]), dtype=a.dtype)
 
